@@ -875,6 +875,20 @@ def run_guard_cases(cases):
         _restore(saved)
 
 
+class HostRuntimeError(RuntimeError):
+    """a host application's own subclass of RuntimeError"""
+
+
+class ServerError(Exception):
+    """a caller's exception carrying a server's error reply (any text the server chose)"""
+
+
+def exit_class(name):
+    return {"Exception": Exception, "RuntimeError": RuntimeError, "ValueError": ValueError, "TypeError": TypeError, "OSError": OSError,
+            "RecursionError": RecursionError, "NotImplementedError": NotImplementedError, "LookupError": LookupError,
+            "AssertionError": AssertionError, "HostRuntimeError": HostRuntimeError, "ServerError": ServerError}[name]
+
+
 def build_exc(spec):
     import asyncio
 
@@ -882,11 +896,10 @@ def build_exc(spec):
     if k == "cancelled":
         return asyncio.CancelledError()
     if k == "group":
-        members = [asyncio.CancelledError() if m.get("cancelled") else Exception(m.get("msg", "")) for m in spec["members"]]
+        members = [asyncio.CancelledError() if m.get("cancelled") else exit_class(m.get("cls", "Exception"))(m.get("msg", ""))
+                   for m in spec["members"]]
         return BaseExceptionGroup(spec.get("msg", "group"), members)  # noqa: F821 (builtin since 3.11)
-    cls = {"Exception": Exception, "RuntimeError": RuntimeError, "ValueError": ValueError, "TypeError": TypeError,
-           "OSError": OSError}[spec.get("cls", "Exception")]
-    return cls(spec.get("msg", ""))
+    return exit_class(spec.get("cls", "Exception"))(spec.get("msg", ""))
 
 
 async def _exit_case(mod, holder, case):
